@@ -216,8 +216,9 @@ def shard_main(shard, nshards, tier):
             raw = r[2].encode('utf-8', 'surrogateescape')
             try:
                 encs = [v[0] for d, v in vec if d == 'encoding']
-                if any(d == 'omit' for d, v in vec) and encs and encs[0] in ('ISO-8859-1', 'apiLatin1', 'US-ASCII'):
+                if any(d == 'omit' for d, v in vec) and encs and encs[0] in ('ISO-8859-1', 'apiLatin1', 'US-ASCII') and not raw.startswith(b'<?xml '):
                     # without a declaration the parser cannot know a non-UTF encoding: decode with the requested one
+                    # (standalone= makes this processor write the declaration in spite of omit-xml-declaration: then it is believed)
                     raw = raw.decode('latin-1').encode('utf-8')
                 got = parse_bytes(raw)
             except Exception as e:
